@@ -189,20 +189,28 @@ PROPS = {
                         "usize is 64 bits"],
     },
     "C04": {
-        "level": "other",
-        "explanation": "partly proved, partly bounded, with a declared gap. Proved without bound: (Kani, complete) all word kernels and byte "
-                       "tables used by the excess searches (find_unmatched_close_in_word, find_close_in_word, word_min_excess*, "
-                       "word_max_excess_rev, the four BYTE_* tables); (Verus, all lengths, real text) build_bp_index -- L1 and L2 min-excess / "
-                       "block-excess arrays are the block folds of the level below, and the rank directory (absolute L1 counts, 9-bit packed "
-                       "L2 offsets, total with the final word masked) satisfies the invariant -- and the rank side of BalancedParens: rank1, "
-                       "rank1_slow, rank0, excess, select0, is_open/is_close, first_child, total_zeros. Bounded (Kani): "
-                       "find_close_in_word_fast at five (start, valid_bits) shapes, every navigation operation of a 2-word/100-bit "
-                       "BalancedParens against the excess-scan definition, CS-Poppy select at rate 3. NOT covered: the L0/L1/L2 block "
-                       "skipping loop of find_close_from on long vectors, find_open/enclose beyond the bounded twin, WithSelect, the simd "
-                       "(SSE4.1) builders.",
-        "trusted_base": COMMON_TRUST + ["Verus 0.2026.09.13 + Z3", "build_l0_index stubbed in c04_build (its per-word kernels are Kani-proved)"],
-        "assumptions": ["words.len() == ceil(len/64) and len <= u32::MAX (asserted by every constructor)",
-                        "excess(p): len < 2^30 (beyond that the i32 result cannot hold 2*rank1)"],
+        "level": "proof",
+        "explanation": "Verus proves on the extracted text of the real functions, for vectors of every length: (build) build_bp_index -- the "
+                       "L1 and L2 min-excess / block-excess arrays are the block folds of the level below, the rank directory (absolute L1 "
+                       "counts, 9-bit packed L2 offsets, total with the final word masked) satisfies its invariant -- and build_l0_index "
+                       "(entry k == min prefix excess / total excess of the valid bits of word k); lemma_fold_levels turns the fold form into "
+                       "the bit-level meaning of all three levels. (rank side) rank1, rank1_slow, rank0, excess, select0, is_open/is_close, "
+                       "first_child, total_zeros. (searches) find_close / find_close_from -- the seven-state L0/L1/L2 skipping loop returns "
+                       "exactly the first position where the running excess reaches zero, None when it never does, termination included; the "
+                       "free find_open and enclose backward scans (word skipping through the backward maximum) and the methods find_open, "
+                       "enclose, parent, next_sibling, subtree_size built on them. (select) WithCsPoppy::build_with_rate establishes the "
+                       "sample invariant for every rate and WithCsPoppy::select1 returns the position of the k-th open among the first len "
+                       "bits, None iff k >= their number (sample bracket, rank_l1 search, rank_l2 offsets, in-word select). Kani proves "
+                       "completely all word kernels and byte tables these use (find_unmatched_close_in_word, find_close_in_word, "
+                       "word_min_excess*, word_max_excess_rev, BYTE_* tables, select_in_word). Bounded only: find_close_in_word_fast (five "
+                       "(start, valid_bits) shapes, all words and excesses), whose contract the find_close proof uses as a stub.",
+        "trusted_base": COMMON_TRUST + ["Verus 0.2026.09.13 + Z3; vstd specs; slice::partition_point stub with its documented contract",
+                                        "seam R4 between Kani-proved kernel contracts and the Verus stubs; between unit c04_build (fold form) and c04_find (bit-level meaning via lemma_fold_levels)"],
+        "assumptions": ["find_close_in_word_fast contract: bounded Kani evidence only (5 shapes)",
+                        "words.len() == ceil(len/64) and len <= u32::MAX (asserted by every constructor); searches: len <= 2^30 (i32 running excess); excess(p): len < 2^30",
+                        "the constructors' plumbing (moving build_bp_index's outputs into the struct fields, packing BpSelectCtx) and the "
+                        "deprecated WithSelect variant (SelectIndex::jump_to + scan_select, both under contract in C01) are not extracted; "
+                        "storage W monomorphised to Vec<u64> (borrowed storage runs the same text); simd (SSE4.1/NEON) builders not covered"],
     },
     "C21": {
         "level": "proof",
